@@ -1,6 +1,7 @@
 """Binding A for Pool.tla: the real billiard.pool.Pool(threads=False) in the fake world."""
 import pickle
 import re
+import threading
 
 import billiard.pool as bp
 from billiard.einfo import ExceptionInfo
@@ -9,6 +10,7 @@ from billiard.exceptions import (RestartFreqExceeded, Terminated, TimeLimitExcee
 
 from . import fakeworld as fw
 from lib.cothread import Co
+from lib.replay import Unrealizable
 
 import logging
 import billiard.util as _bu
@@ -60,8 +62,34 @@ class PoolAdapter:
         self.outmeta = []
         self.raised = False
         self.scan = None          # FineScan: the scan in progress (helper thread + its snapshot)
+        self.hook = 'none'        # HookPause: a grow() / shrink() call parked in its user hook
+        self.hookco = None
+        if c.get('HookPause'):
+            self.pool.on_grow = lambda n: self._park('grow')
+            self.pool.on_shrink = lambda n: self._park('shrink')
+
+    def _park(self, which):
+        if self.hookco is not None and threading.current_thread() is self.hookco.thread:
+            self.hook = which
+            self.hookco.yield_('hook')
+            self.hook = 'none'
+
+    def _resize(self, fn):
+        """run a resize call; with HookPause on a helper thread, up to its user hook"""
+        if not self.c.get('HookPause'):
+            return fn(1)
+        self.hookco = Co(lambda: fn(1), name='resize')
+        self.hookco.start()
+        if self.hookco.crash is not None:
+            raise self.hookco.crash
 
     def close(self):
+        if self.hookco is not None:
+            try:
+                self.hookco.destroy()
+            except Exception:
+                pass
+            self.hookco = None
         if self.scan is not None:
             try:
                 self.scan['co'].destroy()
@@ -148,9 +176,15 @@ class PoolAdapter:
         elif n == 'Close':
             pool.close()
         elif n == 'Grow':
-            pool.grow(1)
+            self._resize(pool.grow)
         elif n == 'Shrink':
-            pool.shrink(1)
+            self._resize(pool.shrink)
+        elif n == 'HookReturn':
+            if self.hook == 'none' or self.hookco is None or self.hookco.finished:
+                raise Unrealizable('no resize call is parked in its hook')
+            self.hookco.resume()
+            if self.hookco.crash is not None:
+                raise self.hookco.crash
         elif n == 'W_Accept':
             pid = act['pid']
             raw = pool._inqueue.items.popleft()
@@ -345,6 +379,7 @@ class PoolAdapter:
                        'nd': k['nd'], 'ex': ex, 'term': bool(p.term_requested)})
         ids_rev = {h._job: k + 1 for k, h in enumerate(self.handles)}
         st = {
+            'hook': self.hook,
             'scanning': self.scan is not None,
             'snap': [ids_rev.get(k, -1) for k in self.scan['left']] if self.scan else [],
             'pstate': {bp.RUN: 'RUN', bp.CLOSE: 'CLOSE', bp.TERMINATE: 'TERMINATE'}[pool._state],
